@@ -573,6 +573,7 @@ package larking
 //@   ensures [end-after-begin C18] begins == ends
 //@   witness verifWitnessServeHTTP
 //@   ghost at "queryParams, err := method.parseQueryParams(r.URL.Query())" pp = params
+//@   cover at "hd, err := s.pickMethodHandler(method.name)" [both-channels] len(queryParams) > 1 && len(pp) > 1
 //@   assert at "hd, err := s.pickMethodHandler(method.name)" [path-params-last C07] len(params) == len(pp) + len(queryParams)
 //@        && (forall x :: off(params) + len(queryParams) <= x && x < off(params) + len(params)
 //@              ==> same(at(params, x), at(pp, x - off(params) - len(queryParams) + off(pp))))
@@ -594,17 +595,23 @@ package larking
 //@ func (*streamGRPC).compress trusted
 //@   requires s != nil && s.comp != nil
 //@   modifies G$buf.
-//@ func (*streamGRPC).SendHeader trusted
+// (contract assumed at call sites; the body is checked for nil dereferences:
+// the stats block must not change what a request does, C18)
+//@ func (*streamGRPC).SendHeader serves C18 C09 trusted partial nil
+//@   requires s != nil
 //@   modifies F$streamGRPC.header, F$streamGRPC.sentHeader
 
 // m must be a proto.Message (a precondition on handlers, not on requests).
-//@ func (*streamGRPC).RecvMsg serves C06 C08 C09 partial index slice make nil assert ghost pre post
+//@ func (*streamGRPC).RecvMsg serves C06 C08 C09 partial index slice make nil assert ghost pre post count
 //@   returns (err)
 //@   requires s != nil && s.r != nil && s.codec != nil && s.opts.maxReceiveMessageSize >= 0 && impl(m, "proto.Message")
 //@   witness verifWitnessGRPCRecv
 //@   assert at "if err := s.codec.Unmarshal(b, args); err != nil {" [size-limit C08] len(b) <= s.opts.maxReceiveMessageSize
 //@   assert at "if err := s.decompress(buf, b); err != nil {" [pooled-buffer-empty C06] buflen(buf) == 0
 //@   ensures [truncated-frame-is-an-error C06] at "return err" #3 err != io.EOF
+//@   count payloadEvents `stats.HandleRPC(`
+//@   ensures [one-in-payload-event-per-message C18] err == nil && s.opts.statsHandler != nil ==> payloadEvents == 1
+//@   ensures [no-event-without-message C18] err != nil ==> payloadEvents == 0
 
 // Assumed interface contract (all implementations delegate to protobuf-go).
 //@ iface (Codec).MarshalAppend
@@ -615,13 +622,16 @@ package larking
 
 // Replies are limited by the send limit (a reply within it is never refused on
 // size grounds) and framed with their exact length.
-//@ func (*streamGRPC).SendMsg serves C06 C08 C09 partial index slice make nil assert ghost pre post
+//@ func (*streamGRPC).SendMsg serves C06 C08 C09 partial index slice make nil assert ghost pre post count
 //@   returns (err)
 //@   requires s != nil && s.w != nil && s.codec != nil && impl(m, "proto.Message") && impl(s.w, "http.Flusher")
 //@   requires s.opts.maxSendMessageSize <= 4294967295
 //@   witness verifWitnessGRPCSend
 //@   assert at "if err := s.compress(buf, b[5:]); err != nil {" [pooled-buffer-empty C06] buflen(buf) == 0
 //@   ensures [refused-only-over-send-limit C08] at `return fmt.Errorf("grpc: sent message larger than max (%d vs. %d)", size, s.opts.maxSendMessageSize)` len(b#1) - 5 > s.opts.maxSendMessageSize
+//@   count payloadEvents `stats.HandleRPC(`
+//@   ensures [one-out-payload-event-per-message C18] err == nil && s.opts.statsHandler != nil ==> payloadEvents == 1
+//@   ensures [no-event-without-message C18] err != nil ==> payloadEvents == 0
 
 // serveGRPC: every path either runs the handler exactly once or refuses the
 // request through one of the seven reviewed http.Error sites (and then never
@@ -730,23 +740,35 @@ package larking
 //@ func (*state).removeHandler trusted
 //@   returns (ok)
 //@   modifies F$state., M$
-//@ func (*Mux).DropConn serves C11 C12 partial count post
+//@ func (*Mux).DropConn serves C11 C12 partial ghost count post
 //@   returns (ok)
 //@   requires m != nil
+//@   count locks `m.mu.Lock(`
+//@   count unlocks `m.mu.Unlock(`
+//@   assert atcall `m.loadState(` [snapshot-cloned-under-lock C12] locks == 1 && unlocks == 0
+//@   assert atcall `m.storeState(` [published-under-lock C12] locks == 1 && unlocks == 0
 //@   count stores `m.storeState(`
 //@   witness verifWitnessDropConn
 //@   ensures [dropped-state-published C11] ok ==> stores == 1
 //@   ensures [unknown-conn-changes-nothing C11 C12] !ok ==> stores == 0
 
-//@ func (*Mux).registerService serves C12 C16 partial count post
+//@ func (*Mux).registerService serves C12 C16 partial ghost count post
 //@   returns (err)
 //@   requires m != nil
+//@   count locks `m.mu.Lock(`
+//@   count unlocks `m.mu.Unlock(`
+//@   assert atcall `m.loadState(` [snapshot-cloned-under-lock C12] locks == 1 && unlocks == 0
+//@   assert atcall `m.storeState(` [published-under-lock C12] locks == 1 && unlocks == 0
 //@   count stores `m.storeState(`
 //@   ensures [store-on-success-only C12 C16] (err == nil ==> stores == 1) && (err != nil ==> stores == 0)
 
-//@ func (*Mux).RegisterConn serves C11 C12 partial count post
+//@ func (*Mux).RegisterConn serves C11 C12 partial ghost count post
 //@   returns (err)
 //@   requires m != nil
+//@   count locks `m.mu.Lock(`
+//@   count unlocks `m.mu.Unlock(`
+//@   assert atcall `m.loadState(` [snapshot-cloned-under-lock C12] locks == 1 && unlocks == 0
+//@   assert atcall `m.storeState(` [published-under-lock C12] locks == 1 && unlocks == 0
 //@   count stores `m.storeState(`
 //@   ensures [at-most-one-store C12] stores <= 1
 //@   ensures [failed-registration-changes-nothing C12] at "return err" stores == 0
@@ -803,12 +825,14 @@ package larking
 //@ spec FieldPathWf(fds) = (forall y :: {at(fds, y)} off(fds) <= y && y < off(fds) + len(fds) - 1 ==> SingularMsg(at(fds, y)))
 //@      && (forall y :: {at(fds, y)} off(fds) <= y && y < off(fds) + len(fds) ==> at(fds, y) != nil)
 
-//@ func fieldPath serves C09 C03
+//@ func fieldPath serves C09 C04 C16
 //@   witness verifWitnessQueryPaths
 //@   requires fieldDescs != nil
 //@   modifies E$protoreflect.FieldDescriptor
 //@   ensures [walkable C09] FieldPathWf(result)
-//@   loop 1 invariant -1 <= rangeindex && rangeindex < len(names) && len(fds) == len(names) && fieldDescs != nil
+//@   ensures [rooted C04 C16] result != nil ==> len(result) == len(names) && (len(names) > 0 ==> fdOwner(result[0]) == pay(old(fieldDescs)))
+//@   loop 1 invariant -1 <= rangeindex && rangeindex < len(names) && len(fds) == len(names) && fieldDescs != nil && base(fds) != 0
+//@   loop 1 invariant (rangeindex == -1 ==> fieldDescs == old(fieldDescs)) && (rangeindex >= 0 ==> fdOwner(at(fds, off(fds))) == pay(old(fieldDescs)))
 //@   loop 1 invariant forall y :: {at(fds, y)} off(fds) <= y && y <= off(fds) + rangeindex && y < off(fds) + len(fds) - 1 ==> SingularMsg(at(fds, y))
 //@   loop 1 invariant forall y :: {at(fds, y)} off(fds) <= y && y <= off(fds) + rangeindex ==> at(fds, y) != nil
 //@   loop 1 decreases len(names) - rangeindex
@@ -822,3 +846,60 @@ package larking
 //@   loop 1 decreases len(ps) - rangeindex
 //@   loop 2 invariant -1 <= rangeindex#2 && rangeindex#2 < len(p.fds) && 0 <= rangeindex && rangeindex < len(ps) && same(p.fds, ps[rangeindex].fds) && cur != nil
 //@   loop 2 decreases len(p.fds) - rangeindex#2
+
+// rules.go: rule compilation. The two closures of addRule are under contract
+// themselves: next() advances the token cursor, invalid() panics.
+//@ func (*path).addRule$1 serves C16
+//@   requires l != nil && 0 <= i && i + 1 < len(l.toks)
+//@   modifies C$int
+//@   ensures i == old(i) + 1 && result == l.toks[i]
+//@ func (*path).addRule$2 serves C16
+//@   requires false
+
+// Descriptor getters are pure, deterministic functions of the descriptor.
+//@ det MethodFullName "(protoreflect.MethodDescriptor).FullName" string
+//@ det MethodInput "(protoreflect.MethodDescriptor).Input" iface
+//@ det MethodOutput "(protoreflect.MethodDescriptor).Output" iface
+//@ det MsgFields "(protoreflect.MessageDescriptor).Fields" iface
+
+// addRule (partial: the token walk relies on the lexer's grammar, which is not
+// under contract): a binding that is already occupied is compared with the
+// method that occupies it (never a nil method), it is accepted silently only for
+// the same method, and the variable, body and response_body selectors are
+// resolved in the request / request / reply message respectively.
+//@ func (*path).addRule serves C16 C11 C04 partial ghost
+//@   requires p != nil && rule != nil && desc != nil
+//@   witness verifWitnessReRegister
+//@   assert at "if y.desc.FullName() != desc.FullName() {" [occupied-binding-has-a-method C16 C11] y != nil
+//@   assert at "return nil" #1 [silently-accepted-only-for-the-same-method C16 C11] MethodFullName(y.desc) == MethodFullName(desc)
+//@   assert at "if fds == nil {" [variable-in-request C16] len(fds) > 0 ==> fdOwner(fds[0]) == pay(MsgFields(MethodInput(desc)))
+//@   assert at "if m.body == nil {" [body-in-request C16] len(m.body) > 0 ==> fdOwner(m.body[0]) == pay(MsgFields(MethodInput(desc)))
+//@   assert at "if m.resp == nil {" [response-body-in-reply C04 C16] len(m.resp) > 0 ==> fdOwner(m.resp[0]) == pay(MsgFields(MethodOutput(desc)))
+
+// Re-registering a connection whose descriptors are unchanged is a no-op: nothing
+// is removed on the path that reports "nothing to do".
+//@ func (*state).addConnHandler serves C11 partial count post
+//@   requires s != nil
+//@   count removes `s.removeHandler(`
+//@   ensures [unchanged-conn-is-a-no-op C11] at "return nil" #1 removes == 0
+
+// Proxied streaming methods: the interceptor info carries the method's own
+// name and streaming flags (C18).
+//@ func createConnHandler serves C18 partial ghost
+//@   requires md != nil && sd != nil
+//@   assert at "fn := func(_ interface{}, stream grpc.ServerStream) error {" [proxied-stream-info C18] info != nil && info.IsClientStream == isClientStream && info.IsServerStream == isServerStream && info.FullMethod == method
+//@   assert at "fn := func(ctx context.Context, args interface{}) (interface{}, error) {" [proxied-unary-info C18] info#2 != nil && info#2.FullMethod == method
+// Locally registered streaming methods (the handler closure of registerService).
+//@ func (*Mux).registerService$3 serves C18 partial ghost
+//@   assert at "return opts.stream(ss, stream, info, d.Handler)" [local-stream-info C18] info != nil && d != nil && info.IsClientStream == d.ClientStreams && info.IsServerStream == d.ServerStreams && info.FullMethod == method
+
+// A trie node stays alive while anything hangs below it: delRule prunes only
+// nodes for which alive() is false (C11: dropping one connection never removes
+// another service's routes).
+//@ func (*path).alive serves C11 C12 pure
+//@   requires p != nil
+//@   ensures [node-with-children-is-alive C11] (maplen(p.methods) != 0 || len(p.variables) != 0 || maplen(p.segments) != 0) ==> result
+//@ func (*path).delRule serves C11 C12 partial ghost
+//@   requires p != nil
+//@   assert at "delete(p.segments, k)" [prune-only-dead-segments C11] maplen(s.methods) == 0 && len(s.variables) == 0 && maplen(s.segments) == 0
+//@   assert at "p.variables = append(" [prune-only-dead-variables C11] maplen(v.next.methods) == 0 && len(v.next.variables) == 0 && maplen(v.next.segments) == 0
